@@ -44,4 +44,13 @@ func init() {
 		}
 		fmt.Println("pairs:", lockBalance(c, "L", rels, nil))
 	})
+	// ERRS: discovery run of the error-looked-at rule over every server package
+	register("ERRS", func(c *Check) {
+		c.Rule("E1", "error looked at (discovery)", 0)
+		var rels []string
+		for _, pk := range c.P.ServerPkgs() {
+			rels = append(rels, strings.TrimPrefix(strings.TrimPrefix(pk.PkgPath, modPath), "/"))
+		}
+		fmt.Println("definitions:", errDiscipline(c, "E1", funcsOfPkgs(c.P, rels...)))
+	})
 }
